@@ -143,3 +143,41 @@ Proof.
   destruct (rel_top _ _ _ _ Hr) as [tl [E1 E2]]. cbn [top_shape] in E1.
   rewrite <- (app_nil_r bs) in E1 at 1. apply app_inv_head in E1. subst tl. rewrite app_nil_r in E2. exact E2.
 Qed.
+
+(* ------------------------------------------------------------------ boolean twins for examples *)
+Fixpoint ukeysb (t : tree) : bool :=
+  match t with
+  | Leaf _ => true
+  | Node _ _ ents =>
+      (fix nd (l : list (string * tree)) : bool :=
+         match l with [] => true | (k, _) :: r => negb (existsb (fun e => String.eqb k (fst e)) r) && nd r end) ents &&
+      (fix go (l : list (string * tree)) : bool := match l with [] => true | (_, c) :: r => ukeysb c && go r end) ents
+  end.
+
+Lemma existsb_keys_false k (l : list (string * tree)) : existsb (fun e => String.eqb k (fst e)) l = false -> ~ In k (map fst l).
+Proof.
+  induction l as [|[k' c] l IH]; cbn; intros H; [tauto|]. apply orb_false_iff in H. destruct H as [H1 H2].
+  intros [Heq|Hin]; [subst; rewrite String.eqb_refl in H1; discriminate|]. exact (IH H2 Hin).
+Qed.
+
+Lemma ukeysb_ukeys t : ukeysb t = true -> ukeys t.
+Proof.
+  induction t as [sh|bs nm ents IH] using tree_ind'; intros H; [constructor|]. cbn [ukeysb] in H.
+  apply andb_true_iff in H. destruct H as [H1 H2]. constructor.
+  - clear H2 IH. induction ents as [|[k c] l IHl]; [constructor|]. apply andb_true_iff in H1. destruct H1 as [Hk Hr].
+    cbn [map fst]. constructor; [apply existsb_keys_false; apply negb_true_iff; exact Hk|exact (IHl Hr)].
+  - clear H1. induction ents as [|[k c] l IHl]; constructor.
+    + apply andb_true_iff in H2. destruct H2 as [Hc _]. exact (Forall_inv IH Hc).
+    + apply andb_true_iff in H2. destruct H2 as [_ Hr]. exact (IHl (Forall_inv_tail IH) Hr).
+Qed.
+
+Lemma cong_refl t : cong eq t t.
+Proof.
+  induction t as [sh|bs nm ents IH] using tree_ind'; constructor; try reflexivity.
+  induction ents as [|e l IHl]; constructor; [split; [reflexivity|exact (Forall_inv IH)]|exact (IHl (Forall_inv_tail IH))].
+Qed.
+
+Lemma ex_tree_ukeys : ukeys ex_tree_P.
+Proof. apply ukeysb_ukeys. vm_compute. reflexivity. Qed.
+Lemma ex_tree_cong : cong eq ex_tree_P ex_tree_P.
+Proof. apply cong_refl. Qed.
